@@ -40,6 +40,7 @@ func init() {
 		Rule{ID: "R01f", Doc: "narrowing conversions in the transports (query id, length prefix) are range-proved", Floor: 2, Run: r01fTransport},
 		Rule{ID: "R01g", Doc: "the decoder is given exactly the received bytes, never the rest of a recycled buffer (shared with C01)", Floor: 8, AllVariants: true, Run: r01g},
 		Rule{ID: "R05g", Doc: "id-exhaustion thresholds of addQueueC, Status and deleteQueueC agree", Floor: 4, AllVariants: true, Run: r05g},
+		Rule{ID: "R20a", Doc: "a reply is released once (a doubly pooled message satisfies two exchanges; shared with C20)", Floor: 60, Run: r20a},
 	)
 	reg("C06", "Structural necessary conditions of clean reuse of one-at-a-time connections, decided for all paths: "+
 		"(R06a) the idle set is inserted only by releaseConn, only where its error parameter is nil and the transport is open, under the transport mutex, and removed only by getIdleConn before the connection is handed out; "+
